@@ -40,7 +40,10 @@ pub enum Op {
     NewWorld { w: usize },
     Spawn { w: usize, k: Option<usize>, b: Bundle },
     SpawnAt { w: usize, h: HRef, k: Option<usize>, b: Bundle },
-    SpawnBatch { w: usize, k: usize, rows: Vec<Bundle> },
+    /// `via`: "batch" (`spawn_batch`, iterator collected), "partN" (`spawn_batch`, N handles taken, then the
+    /// iterator is dropped), "extend" (`Extend<B>`), "collect" (`FromIterator<B>` when the world is
+    /// pristine, `Extend` otherwise)
+    SpawnBatch { w: usize, k: usize, via: String, rows: Vec<Bundle> },
     SpawnCb { w: usize, decl: Vec<usize>, rows: Vec<Bundle> },
     SpawnCbAt { w: usize, hs: Vec<HRef>, decl: Vec<usize>, rows: Vec<Bundle> },
     Insert { w: usize, h: HRef, k: Option<usize>, b: Bundle },
@@ -117,7 +120,7 @@ impl Op {
             Op::NewWorld { w } => format!("world W{}", w),
             Op::Spawn { w, k, b } => format!("spawn W{} k={} b={}", w, kstr(k), show_comps(b)),
             Op::SpawnAt { w, h, k, b } => format!("spawn_at W{} h={} k={} b={}", w, h.show(), kstr(k), show_comps(b)),
-            Op::SpawnBatch { w, k, rows } => format!("spawn_batch W{} k={} rows={}", w, k, show_rows(rows)),
+            Op::SpawnBatch { w, k, via, rows } => format!("spawn_batch W{} k={} via={} rows={}", w, k, via, show_rows(rows)),
             Op::SpawnCb { w, decl, rows } => format!("spawn_cb W{} decl={} rows={}", w, show_nats(decl), show_rows(rows)),
             Op::SpawnCbAt { w, hs, decl, rows } => format!(
                 "spawn_cb_at W{} hs=[{}] decl={} rows={}",
@@ -187,7 +190,12 @@ impl Op {
             "world" => Op::NewWorld { w },
             "spawn" => Op::Spawn { w, k: parse_k(f("k")), b: parse_comps(f("b")) },
             "spawn_at" => Op::SpawnAt { w, h: HRef::parse(f("h")), k: parse_k(f("k")), b: parse_comps(f("b")) },
-            "spawn_batch" => Op::SpawnBatch { w, k: f("k").parse().unwrap(), rows: parse_rows(f("rows")) },
+            "spawn_batch" => Op::SpawnBatch {
+                w,
+                k: f("k").parse().unwrap(),
+                via: field(&toks, "via").unwrap_or("batch").to_string(),
+                rows: parse_rows(f("rows")),
+            },
             "spawn_cb" => Op::SpawnCb { w, decl: parse_nats(f("decl")), rows: parse_rows(f("rows")) },
             "spawn_cb_at" => Op::SpawnCbAt {
                 w,
@@ -623,20 +631,80 @@ impl Ctx {
                 self.push_handle(e);
                 (format!("spawn_at W{} h={} k={} b={}", w, show_entity(e), kstr(k), show_comps(b)), "ok".into())
             }
-            Op::SpawnBatch { w, k, rows } => {
-                let world = self.world(*w);
+            Op::SpawnBatch { w, k, via, rows } => {
                 for r in rows {
                     check_menu(*k, r);
                 }
-                let es: Vec<Entity> = with_bundle!(*k, T, {
-                    let items: Vec<T> = rows.iter().map(|r| <T as StaticBundle>::make(&serials_of(r))).collect();
-                    world.spawn_batch(items).collect()
-                });
+                let pristine = {
+                    let d = self.world(*w).verif_dump();
+                    d.entities.meta.is_empty() && d.archetypes.len() == 1
+                };
+                if via == "collect" && pristine && !self.trackers.contains_key(w) {
+                    let fresh: World = with_bundle!(*k, T, {
+                        let items: Vec<T> = rows.iter().map(|r| <T as StaticBundle>::make(&serials_of(r))).collect();
+                        items.into_iter().collect()
+                    });
+                    self.worlds[*w] = Some(fresh);
+                }
+                let table = self.table.clone();
+                let world = self.world(*w);
+                let es: Vec<Entity> = if via == "collect" && pristine {
+                    world.iter().map(|e| e.entity()).collect()
+                } else {
+                    // existing = yielded by iteration, or reserved and not yet flushed (the batch flushes them)
+                    let mut before: std::collections::HashSet<Entity> = world.iter().map(|e| e.entity()).collect();
+                    before.extend(table.iter().copied().filter(|e| world.contains(*e)));
+                    let mut got: Vec<Entity> = with_bundle!(*k, T, {
+                        let items: Vec<T> = rows.iter().map(|r| <T as StaticBundle>::make(&serials_of(r))).collect();
+                        match via.as_str() {
+                            "batch" => world.spawn_batch(items).collect(),
+                            "extend" | "collect" => {
+                                world.extend(items);
+                                Vec::new()
+                            }
+                            v => {
+                                let n: usize = v.strip_prefix("part").and_then(|n| n.parse().ok()).expect("harness: bad via");
+                                let mut it = world.spawn_batch(items);
+                                let mut got = Vec::new();
+                                for _ in 0..n {
+                                    if let Some(e) = it.next() {
+                                        got.push(e);
+                                    }
+                                }
+                                drop(it);
+                                got
+                            }
+                        }
+                    });
+                    // what the caller was not handed is found the way a caller would: by iterating
+                    if via != "batch" {
+                        let rest: Vec<Entity> =
+                            world.iter().map(|e| e.entity()).filter(|e| !before.contains(e) && !got.contains(e)).collect();
+                        got.extend(rest);
+                    }
+                    got
+                };
                 self.push_handles(&es);
-                (
-                    format!("spawn_batch W{} k={} ts={} rows={}", w, k, show_nats(&bundle_types(*k)), show_rows(rows)),
-                    format!("es={}", show_entities(&es)),
-                )
+                if via == "extend" || via == "collect" {
+                    // `Extend`/`FromIterator` are, by their definition, one `spawn` per item: the trace
+                    // says so, with the handles a caller finds afterwards
+                    if via == "collect" && pristine {
+                        self.notes.push(format!("world W{} => ok", w));
+                    }
+                    for (i, r) in rows.iter().enumerate() {
+                        let e = es.get(i).map_or("?".to_string(), |e| show_entity(*e));
+                        self.notes.push(format!("spawn W{} k={} b={} => e={} d=[]", w, k, show_comps(r), e));
+                    }
+                    for e in es.iter().skip(rows.len()) {
+                        self.notes.push(format!("spawn W{} k={} b=? => e={} d=[]", w, k, show_entity(*e)));
+                    }
+                    (format!("extend W{} k={} via={} n={}", w, k, via, rows.len()), "ok".into())
+                } else {
+                    (
+                        format!("spawn_batch W{} k={} via={} ts={} rows={}", w, k, via, show_nats(&bundle_types(*k)), show_rows(rows)),
+                        format!("es={}", show_entities(&es)),
+                    )
+                }
             }
             Op::SpawnCb { w, decl, rows } => {
                 let batch = build_column_batch(decl, rows);
@@ -1143,6 +1211,16 @@ impl Gen {
         }
     }
 
+    fn batch_via(&mut self, n: usize) -> String {
+        match self.rng.below(8) {
+            0..=3 => "batch".into(),
+            4 => format!("part{}", self.rng.below(n + 1)),
+            5 => "part0".into(),
+            6 => "extend".into(),
+            _ => "collect".into(),
+        }
+    }
+
     fn batch_rows(&mut self, decl: &[usize], n: usize) -> Vec<Bundle> {
         let ts = canon_types(decl);
         (0..n).map(|_| self.bundle_for_types(&ts)).collect()
@@ -1399,7 +1477,8 @@ impl Gen {
                     let k = *self.rng.pick(&[1usize, 10, 8, 12]).unwrap();
                     let ts = bundle_types(k);
                     let rows = (0..n).map(|_| self.bundle_for_types(&ts)).collect();
-                    Op::SpawnBatch { w, k, rows }
+                    let via = self.batch_via(n);
+                    Op::SpawnBatch { w, k, via, rows }
                 }
                 _ => Op::Reserve { w, k: *self.rng.pick(&[1usize, 10, 8, 12]).unwrap() },
             };
@@ -1497,7 +1576,8 @@ impl Gen {
                 let n = *self.rng.pick(&[0usize, 1, 2, 3, 5]).unwrap();
                 let ts = bundle_types(k);
                 let rows = (0..n).map(|_| self.bundle_for_types(&ts)).collect();
-                Op::SpawnBatch { w, k, rows }
+                let via = self.batch_via(n);
+                Op::SpawnBatch { w, k, via, rows }
             }
             3 => {
                 let mut decl = self.random_types(3);
